@@ -142,6 +142,15 @@ type c07Spec struct {
 	Take              bool
 	Fl                eng.Flags
 	Hooks             []eng.Hook
+	// Intr: another actor creates an object in the MIDDLE of the operation under test, at the key of
+	// the first new resource (IntrHook: of a hook "racehook" the chart gets for the operation's pre-event):
+	// "get404" = right after the IntrNth-th GET of the key that was answered 404 (0 = the last GET
+	// before Helm's POST: 1 for install and rollback, 2 for upgrade), "post" = just before the POST.
+	// IntrOwner: "" unlabelled, "other" = owned by another release.
+	Intr      string
+	IntrNth   int
+	IntrHook  bool
+	IntrOwner string
 }
 
 func c07Build(backend, scenario string, idx []int, place []string, variant int, take bool, fl eng.Flags, hooks []eng.Hook) c07Case {
@@ -262,6 +271,36 @@ func c07BuildSpec(sp c07Spec) c07Case {
 	}
 	c.H = h
 	c.Test = len(h.Steps) - 1
+	if sp.Intr != "" && len(newRes) > 0 {
+		op := h.Steps[c.Test].Op
+		obj := eng.Res{Kind: newRes[0].Kind, Name: newRes[0].Name, Namespace: newRes[0].Namespace, Fields: map[string]string{"d:k": "intruder"}}
+		if sp.IntrHook {
+			ev := map[string]string{"install": "pre-install", "upgrade": "pre-upgrade", "rollback": "pre-rollback"}[op.Kind]
+			hk := eng.Hook{Res: eng.Res{Kind: "ConfigMap", Name: "racehook", Fields: map[string]string{"d:h": "r"}}, Events: []string{ev}}
+			if op.Kind == "rollback" { // the hooks of a rollback are those of the revision rolled back to
+				h.Steps[0].Op.Hooks = append(h.Steps[0].Op.Hooks, hk)
+			} else {
+				op.Hooks = append(op.Hooks, hk)
+			}
+			obj = eng.Res{Kind: "ConfigMap", Name: "racehook", Fields: map[string]string{"d:k": "intruder"}}
+		}
+		if sp.IntrOwner == "other" {
+			obj.Fields[c07L], obj.Fields[c07AN], obj.Fields[c07AS] = "Helm", "other", eng.RelNS
+		}
+		nth := sp.IntrNth
+		if nth == 0 {
+			nth = 1
+			if op.Kind == "upgrade" {
+				nth = 2
+			}
+		}
+		op.Intr = &eng.Intruder{When: sp.Intr, Nth: nth, Obj: obj}
+		c.Intr = sp.Intr
+		if sp.IntrHook {
+			c.Intr += "-hook"
+		}
+		c.H = h
+	}
 	return c
 }
 
@@ -336,7 +375,25 @@ func c07Gen(r *rand.Rand) c07Case {
 		}
 		sp.Twins = r.Intn(4) != 0
 	}
+	// 10%: a check-to-create race on the first new resource (or on a hook of the operation)
+	raced := false
+	if r.Intn(100) < 10 {
+		sp.Place[0] = "absent"
+		sp.Intr = []string{"get404", "post"}[r.Intn(2)]
+		sp.IntrHook = r.Intn(4) == 0
+		if sp.IntrHook {
+			sp.Intr = "post"
+		}
+		sp.IntrOwner = []string{"", "other"}[r.Intn(2)]
+		if r.Intn(4) == 0 {
+			sp.IntrNth = 1
+		}
+		raced = true
+	}
 	c := c07BuildSpec(sp)
+	if raced {
+		return c
+	}
 	if sc != "rollback-recreate" && r.Intn(100) < 15 {
 		c = c07GetFault(c, idx, r.Intn(n))
 	}
@@ -392,6 +449,23 @@ func (*c07) Corpus() []any {
 		}
 		out = append(out, c07BuildSpec(c07Spec{Backend: "memory", Scenario: "install", Idx: []int{0, 1}, Place: []string{"absent", p}, NS: []string{"other", "other"}, Twins: true, Variant: 2 + i, Take: true,
 			Metas: []string{"stale", "wrong-label"}}))
+	}
+	// check-to-create races (seeded defect C07-10: createResource treating AlreadyExists as success):
+	// another actor creates the object between Helm's last look-up and Helm's POST
+	for i, sc := range []string{"install", "upgrade-add", "rollback-recreate", "replace"} {
+		for _, owner := range []string{"", "other"} {
+			for _, when := range []string{"get404", "post"} {
+				out = append(out, c07BuildSpec(c07Spec{Backend: "secret", Scenario: sc, Idx: []int{0, 2}, Place: []string{"absent", "absent"}, Variant: 1 + i, Intr: when, IntrOwner: owner}))
+			}
+			out = append(out, c07BuildSpec(c07Spec{Backend: "memory", Scenario: sc, Idx: []int{1}, Place: []string{"absent"}, Variant: 2 + i, Intr: "post", IntrHook: true, IntrOwner: owner}))
+		}
+		// right after the PRE-FLIGHT look-up (an upgrade then meets it in Client.update's own GET)
+		out = append(out, c07BuildSpec(c07Spec{Backend: "secret", Scenario: sc, Idx: []int{0}, Place: []string{"absent"}, Variant: 3 + i, Intr: "get404", IntrNth: 1}))
+		// with the flags that clean up after a failure, with take-ownership, next to an adopted resource, in a second namespace
+		out = append(out, c07BuildSpec(c07Spec{Backend: "secret", Scenario: sc, Idx: []int{0, 2}, Place: []string{"absent", "absent"}, Variant: 1 + i, Intr: "get404", Fl: eng.Flags{Atomic: true}}))
+		out = append(out, c07BuildSpec(c07Spec{Backend: "secret", Scenario: sc, Idx: []int{0, 2}, Place: []string{"absent", "absent"}, Variant: 1 + i, Intr: "post", Fl: eng.Flags{Cleanup: true}}))
+		out = append(out, c07BuildSpec(c07Spec{Backend: "memory", Scenario: sc, Idx: []int{0, 2}, Place: []string{"absent", "owned"}, Variant: 1 + i, Intr: "get404", Take: true}))
+		out = append(out, c07BuildSpec(c07Spec{Backend: "memory", Scenario: sc, Idx: []int{0, 2}, Place: []string{"absent", "absent"}, NS: []string{"other", ""}, Variant: 1 + i, Intr: "post"}))
 	}
 	// the SAME kind and name in both namespaces of one manifest: two resources, two ownership checks
 	for i, p := range c07Placements {
